@@ -190,6 +190,8 @@ def run(ctx, rep):
     # ---- (a') capture depth ordering ------------------------------------------------
     from props import _netdeps
     _netdeps.run(F, rep, "C07.net-dependencies")
+    from props import _depfilter
+    _depfilter.run(F, rep, "C07")
 
     # ---- (a) ---------------------------------------------------------------------
     if _visit is not None:
